@@ -29,6 +29,9 @@ CONSTANTS Ids,        \* identifiers
           AsmForms,   \* generate __asm__ labels on first declarations
           AsmFirst,   \* (with AsmForms) the first declaration of an identifier must carry the label
           Kinds,      \* kinds generated, subset of {"obj", "func"}
+          Family,     \* "all" | "tentative": only file-scope object declarations `int x;` `int x = v;` `static int x;`
+                      \* `static int x = v;` `extern int x;` of several identifiers, identifiers introduced in a fixed order
+                      \* (every interleaving of their histories: the shared tentative-definition list)
           DevsOn,     \* deviations switched on in the model compared with the binary
           OkPrefix,   \* extend only histories that are well-defined so far (random multi-identifier units)
           SampleMod,  \* histories of full length MaxLen are emitted only if Hash(hist) % SampleMod = 0 (1: all)
@@ -429,6 +432,9 @@ BlockForms ==
   \cup {[sc |-> s, tls |-> TRUE, inl |-> FALSE, kind |-> "obj", def |-> "none"] : s \in {"none", "static", "extern"}}
   \cup {[sc |-> s, tls |-> FALSE, inl |-> FALSE, kind |-> "func", def |-> "none"] : s \in {"none", "static", "extern"}}
 
+TentForms == {f \in FileForms : f.kind = "obj" /\ ~f.tls /\ ~(f.sc = "extern" /\ f.def = "init")}
+IdRank(id) == IF id = "x" THEN 1 ELSE IF id = "y" THEN 2 ELSE IF id = "z" THEN 3 ELSE 4
+
 CurPath == IF hist = <<>> THEN <<>> ELSE hist[Len(hist)].path
 
 (* paths reachable from the current one: keep k levels, open m fresh blocks *)
@@ -454,12 +460,15 @@ Extensible ==
 Next ==
   /\ Extensible
   /\ \E id \in Ids, p \in NextPaths, a \in (IF AsmForms THEN Bool ELSE {FALSE}) :
-       \E f \in (IF p = <<>> THEN FileForms ELSE BlockForms) :
+       \E f \in (IF Family = "tentative" THEN TentForms ELSE IF p = <<>> THEN FileForms ELSE BlockForms) :
          LET firstdecl == ~\E j \in 1..Len(hist) : hist[j].id = id IN
          /\ MixKinds \/ \A j \in 1..Len(hist) : hist[j].id = id => hist[j].kind = f.kind
          /\ a => (firstdecl /\ p = <<>> /\ f.def # "body")
          /\ (AsmFirst /\ firstdecl) => a
          /\ f.kind \in Kinds
+         /\ Family = "tentative" =>
+              /\ p = <<>>
+              /\ \A id2 \in Ids : IdRank(id2) < IdRank(id) => \E j \in 1..Len(hist) : hist[j].id = id2
          /\ Declare([id |-> id, path |-> p, sc |-> f.sc, tls |-> f.tls, inl |-> f.inl, kind |-> f.kind,
                      def |-> f.def, asm |-> a])
 
